@@ -96,6 +96,43 @@ def arm_of(fn, variant):
     return None
 
 
+def in_source_order(body, call, arm_pat, field):
+    """Is `call` made once per element of the arm's `field`, in the order of the field?  True when the innermost loop
+    around it is `for x in <field>` (modulo `&`, `.iter()`, `.iter_mut()`, `.into_iter()`) or the closure of
+    `<field>.iter().for_each / try_for_each / try_fold(..)`; a reordered, filtered, partitioned, reversed or chained
+    iterator is not.  returns (ok, text of what is iterated)"""
+    import a10
+    from pathcond import find_path
+
+    binds, _rest = a10.pattern_bindings(arm_pat)
+    name = binds.get(field)
+    if not name or name == "<pattern>":
+        return False, "`%s` is not bound" % field
+
+    def plain(e):
+        e = strip(e)
+        while True:
+            if e["k"] == "Ref":
+                e = strip(e["e"])
+            elif e["k"] == "MethodCall" and e["method"] in ("iter", "iter_mut", "into_iter", "as_slice") and not e["args"]:
+                e = strip(e["recv"])
+            else:
+                break
+        return e
+
+    path = find_path(body, call) or []
+    it = None
+    for parent, _slot, child in path:
+        if parent["k"] == "For":
+            it = parent["iter"]
+        elif parent["k"] == "MethodCall" and parent["method"] in ("for_each", "try_for_each", "try_fold", "fold") and any(child is a_ for a_ in parent["args"]):
+            it = parent["recv"]
+    if it is None:
+        return False, "not inside a loop over `%s`" % name
+    pe = plain(it)
+    return (pe["k"] == "Path" and pe["path"] == name), render(it)[:100]
+
+
 def unconditional(body, node, allow=()):
     """facts guarding node inside body, minus loops and allowed ones"""
     cs = conditions_to(body, node) or []
@@ -285,10 +322,24 @@ def rule_lifting(ctx):
             ex = unconditional(body, vis[0])
             early = [x["k"] for x in walk(body) if x["k"] in ("Break", "Continue", "Return")]
             ctx.check(R, "Block/every-statement-visited", not ex and not early, "%s; early exits in the arm: %s (a statement after an exit is not lifted: e.g. the code after a loop whose body returns)" % (ex, early), site(LF, vis[0]))
+            oko, what = in_source_order(body, vis[0], arm["pat"], "stmts")
+            ctx.check(R, "Block/statements-in-source-order", oko, "the statements are lifted in the order of: %s" % what, site(LF, vis[0]))
             asg = [n for n in walk(body) if n["k"] == "Assign" and render(n["l"]) == "pred_set"]
             ctx.check(R, "Block/pending-set-is-the-last-statement's", len(asg) == 1 and any(x is vis[0] for x in walk(asg[0]["r"])), "pred_set must be replaced by the result of visiting each statement", site(LF, arm))
             ctx.check(R, "Block/result", result_exprs(body) == ["Ok(pred_set)"], str(result_exprs(body)), site(LF, arm))
             rule_no_removal(ctx, R, "Block", body)
+    # ---------------- InitializationBlock: its declarations and initialisers stay interleaved as written
+    arm = arm_of(fn, "InitializationBlock")
+    if arm is None:
+        ctx.missing(R, "InitializationBlock arm")
+    else:
+        vis = list(calls(arm["body"], "visit_statement"))
+        if len(vis) != 1:
+            ctx.missing(R, "InitializationBlock/one-visit", "visit_statement x%d" % len(vis))
+        else:
+            oko, what = in_source_order(arm["body"], vis[0], arm["pat"], "initializations")
+            ex = unconditional(arm["body"], vis[0])
+            ctx.check(R, "InitializationBlock/statements-in-source-order", oko and not ex, "the initialisation statements are lifted in the order of: %s%s (`var a = e, b[a]` declares b after a is assigned)" % (what, (" under %s" % ex) if ex else ""), site(LF, vis[0]))
     # other statements: appended to the current block, no predecessors
     for a in [x for x in (arm_of(fn, "Declaration"), arm_of(fn, "_")) if x is not None]:
         nm = "Declaration" if "Declaration" in render(a["pat"]) else "other"
@@ -388,6 +439,19 @@ def rule_complete(ctx):
 
     ok = len(push) == 1 and _sg.match(_sg.pattern("BasicBlock::new(meta, j, loop_depth)"), push[0]["args"][0], {}, _sg.lets(fn["body"])) and not unconditional(fn["body"], push[0])
     ctx.check(R, "complete_basic_block/one-block-with-that-index", ok, render(push[0])[:100] if push else "no push", site(LF, fn))
+    # nobody else rewrites a statement that is already in a block (in particular a branch's targets)
+    for q_, f_ in fns_in_file(LF):
+        if not f_.get("body") or f_["name"] == "complete_basic_block" or "tests" in q_:
+            continue
+        inl = [h for h in fns_in_file(LF) if h[1]["name"] == "complete_basic_block"]
+        touch = [m for m in walk(f_["body"]) if m["k"] == "MethodCall" and m["method"] == "statements_mut"]
+        touch += [p_ for p_ in walk(f_["body"]) if p_["k"] == "PStruct" and last(p_["path"]) == "IfThenElse" and any(fl["name"] in ("false_index", "true_index") for fl in p_["fields"])]
+        # (the default view inlines private helpers: only a touch that is not the inlined complete_basic_block counts)
+        own = [t for t in touch if not any(t is x for h in inl for x in walk(h[1]["body"]))]
+        fp = {render(x)[:60] for h in inl for x in walk(h[1]["body"]) if x["k"] in ("MethodCall", "PStruct")}
+        own = [t for t in own if render(t)[:60] not in fp]
+        if touch or f_["name"] == "visit_statement":
+            ctx.check(R, "%s/placed-statements-are-not-rewritten" % f_["name"], not own, "branch targets are written when the branch is created and patched by complete_basic_block only; here: %s" % [render(t)[:70] for t in own][:3], site(LF, own[0]) if own else site(LF, f_))
     asg = [n for n in walk(fn["body"]) if n["k"] == "Assign" and "false_index" in render(n["l"])]
     if len(asg) != 1:
         return ctx.bad(R, "complete_basic_block/false-target-patch", "expected one assignment to false_index, found %d" % len(asg))
@@ -433,8 +497,64 @@ def rule_entry(ctx):
         ctx.check(R, "BasicBlock::new/no-edges", okn, str(lits)[:300], site(BB, bb))
 
 
+CFGF = "program_structure/src/control_flow_graph/cfg.rs"
+
+
+def rule_handover(ctx):
+    R = "C12.5"
+    ctx.rule(R, "what the lifting built is what the graph holds: BasicBlock's mutators append / prepend / insert what they are given unconditionally, and the block vector goes from build_basic_blocks through Cfg::new into the graph without being changed (dropping a statement or a block afterwards leaves edges and branch targets pointing at things that are not there)")
+    import sgrep
+    from astlib import struct_literal_fields
+    from pathcond import _mutated_names
+
+    for nm, pats in (("append_statement", ["self.stmts.push(__s)"]), ("prepend_statement", ["self.stmts.insert(0, __s)"]), ("add_predecessor", ["self.predecessors.insert(__s)"]), ("add_successor", ["self.successors.insert(__s)"])):
+        f = find_fn(BB, nm, "BasicBlock")
+        if f is None:
+            ctx.missing(R, "BasicBlock::" + nm)
+            continue
+        pv = sgrep.params(f)
+        hits = []
+        for n in walk(f["body"]):
+            if n["k"] == "MethodCall" and len(pv) == 1 and any(sgrep.match(sgrep.pattern(pt), n, {"__s": pv[0]}, sgrep.lets(f["body"])) for pt in pats):
+                hits.append(n)
+        conds = [fact_str(c) for h in hits for c in (conditions_to(f["body"], h) or [])]
+        exits_ = [x for x in walk(f["body"]) if x["k"] in ("Return", "Try")]
+        ctx.check(R, "BasicBlock::%s/unconditional" % nm, len(hits) == 1 and not conds and not exits_, "expected exactly `%s` on every path; found %d under %s, early exits: %d" % (pats[0], len(hits), conds, len(exits_)), site(BB, f))
+    cn = find_fn(CFGF, "new", "Cfg")
+    if cn is None:
+        ctx.missing(R, "Cfg::new")
+    else:
+        prm = [i for i in cn["sig"]["inputs"] if i["pat"]["k"] == "PIdent" and "BasicBlock" in i["ty"] and "Vec" in i["ty"].replace("BasicBlockVec", "Vec")]
+        lits = struct_literal_fields(cn, "Cfg")
+        okf = len(prm) == 1 and len(lits) == 1 and lits[0].get("basic_blocks") in (prm[0]["pat"]["name"], prm[0]["pat"]["name"] + ".into()")
+        muts = set()
+        for st in cn["body"]["stmts"]:
+            muts |= _mutated_names(st)
+        okm = len(prm) == 1 and prm[0]["pat"]["name"] not in muts
+        ctx.check(R, "Cfg::new/stores-the-vector-it-is-given", okf and okm, "basic_blocks field: %s; parameter changed in the body: %s" % (lits[0].get("basic_blocks") if lits else "?", sorted(muts)), site(CFGF, cn))
+    # the lifting hands the vector over untouched
+    for q, f in fns_in_file(LF):
+        if not f.get("body") or not list(calls(f["body"], "build_basic_blocks")):
+            continue
+        bnames = []
+        for l_ in walk(f["body"]):
+            if l_["k"] == "Local" and l_.get("init") is not None and list(calls(l_["init"], "build_basic_blocks")) and l_["pat"]["k"] == "PIdent":
+                bnames.append((l_["pat"]["name"], l_["pat"].get("mut")))
+        news = list(calls(f["body"], "Cfg::new"))
+        if len(bnames) != 1 or len(news) != 1:
+            ctx.missing(R, "%s/one-vector-one-graph" % f["name"], "vectors %s, Cfg::new x%d" % (bnames, len(news)))
+            continue
+        nm, mut = bnames[0]
+        passed = any(render(strip(a)) == nm for a in news[0]["args"])
+        muts = set()
+        for st in f["body"]["stmts"]:
+            muts |= _mutated_names(st)
+        ctx.check(R, "%s/vector-handed-to-the-graph-unchanged" % f["name"], passed and not mut and nm not in muts, "passed to Cfg::new: %s, declared mut: %s, changed: %s" % (passed, bool(mut), nm in muts), site(LF, news[0]))
+
+
 def run(ctx):
     rule_edges(ctx)
     rule_lifting(ctx)
     rule_entry(ctx)
     rule_complete(ctx)
+    rule_handover(ctx)
